@@ -15,7 +15,8 @@
 From Coq Require Import ZArith List Bool Lia Permutation.
 From Soc Require Import Lib.Res Lib.Bits Lib.PyList Model.MemoryMap Model.MemSpec Model.Builder
                         Model.BuilderSpec.
-From Soc Require Import Proofs.BuilderMap Proofs.BuilderLayout Proofs.BuilderInv Proofs.Builder.
+From Soc Require Import Proofs.BuilderMap Proofs.BuilderLayout Proofs.BuilderInv Proofs.Builder
+                        Proofs.BuilderAll.
 Import ListNotations.
 Open Scope Z_scope.
 
@@ -158,6 +159,12 @@ Theorem C17_map_is_memory_map : forall b m, reachable_builder b -> snd (as_memor
   windows m = [].
 Proof. exact map_reachable. Qed.
 Print Assumptions C17_map_is_memory_map.
+
+(* all_resources() of the returned map: one entry per register, path = (name,), width = data_width *)
+Theorem C17_all_resources : forall b m, reachable_builder b -> snd (as_memory_map b) = Ok m ->
+  all_resources m = Ok (map (info_of (bd_dw b)) (resources m)).
+Proof. exact builder_all_resources. Qed.
+Print Assumptions C17_all_resources.
 
 (* every reachable builder has a valid geometry, registers with distinct identities, valid names and
    offsets that are non-negative multiples of data_width / granularity *)
